@@ -394,6 +394,16 @@ Definition valid_cell (c : cell) : bool :=
   && has_kind SpikeThresh c && has_kind InitMembPotential c && has_kind SpecificCapacitance c
   && forallb (fun p => pvalid p && nmlid (pgrp p)) (props c).
 
+(* validate(recursive=True) as shipped does not look at members a child inherits (the id of a
+   SegmentGroup comes from Base): defect C03.  The implementation's validate verdict is accepted if it
+   equals valid_cell (C03 repaired) or this lenient variant (as shipped); the XSD verdict must equal
+   valid_cell. *)
+Definition valid_cell_lenient (c : cell) : bool :=
+  match segs c with [] => false | _ => true end
+  && forallb (fun g => forallb nmlid (includes g)) (groups c)
+  && has_kind SpikeThresh c && has_kind InitMembPotential c && has_kind SpecificCapacitance c
+  && forallb (fun p => pvalid p && nmlid (pgrp p)) (props c).
+
 (* ---------- the property as a decidable predicate on a final state ---------- *)
 Definition tagged (t : stype) (c : cell) : list Z :=
   map sid (filter (fun s => match stag s with Some t' => stype_eqb t t' | None => false end) (segs c)).
@@ -532,9 +542,10 @@ Definition ostep_eqb (a b : ostep) : bool :=
   | OErr e, OErr e' => berr_eqb e e'
   | _, _ => false
   end.
+(* a = model (validate slot: lenient verdict, xsd slot: valid_cell), b = implementation *)
 Definition ofinal_eqb (a b : ofinal) : bool :=
   match a, b with
-  | OFinal s v x, OFinal s' v' x' => ostep_eqb s s' && Bool.eqb v v' && Bool.eqb x x'
+  | OFinal s vl x, OFinal s' v' x' => ostep_eqb s s' && (Bool.eqb x v' || Bool.eqb vl v') && Bool.eqb x x'
   | ONoFinal, ONoFinal => true
   | _, _ => false
   end.
@@ -552,7 +563,7 @@ Definition model_final (fx : bool) (ops : list op) (c : cell) : ofinal :=
   match run fx ops c with
   | BErr _ => ONoFinal
   | BRet c' => match finish_gen fx c' with
-               | BRet c'' => OFinal (obs_state c'') (valid_cell c'') (valid_cell c'')
+               | BRet c'' => OFinal (obs_state c'') (valid_cell_lenient c'') (valid_cell c'')
                | BErr e => OFinal (OErr e) false false
                end
   end.
